@@ -50,6 +50,9 @@ M = [
      "        for match in re.finditer(matchspec, self._s, re.IGNORECASE if not (match_case or regex) else 0):\n            if count < 0 or count > 0:\n                self.apply_formatting_for_match(format, match)"),
     ('m23_find_settings_end_skip', ['C17'], S, "            for idx in sorted([x for x in idx_to_settings.keys() if x>found_start]):", "            for idx in sorted([x for x in idx_to_settings.keys() if x>found_start+1]):"),
     ('m24_empty_sequence_not_reset', ['C18', 'C02'], P, "    if not sequence:\n        return [AnsiSetting(AnsiParam.RESET.value)]", "    if not sequence:\n        return []"),
+    ('m26_slice_end_identity', ['C04'], S, "            elif idx == en:\n                if settings.rem:", "            elif idx is en:\n                if settings.rem:"),
+    ('m27_iadd_seam_identity', ['C05'], S, "                if (\n                    key == shift\n", "                if (\n                    key is shift\n"),
+    ('m28_remove_start_identity', ['C07'], S, "            if idx == start:\n                for s in current_settings:", "            if idx is start:\n                for s in current_settings:"),
     ('m25_cursor_position_swapped', ['C19'], S, "    return ansi_control_sequence_introducer + str(row) + ';' + str(column) + 'H'", "    return ansi_control_sequence_introducer + str(column) + ';' + str(row) + 'H'"),
 ]
 
